@@ -454,7 +454,12 @@ class Mx:
     def middleRows(s, i, n): return s.view(_i(i), 0, _i(n), s.c)
     def transpose(s): return Mx(s.c, s.r, [[s.g(i, j) for i in range(s.r)] for j in range(s.c)])
     def selfadjointViewLower(s): return Mx(s.r, s.c, [[s.g(max(i, j), min(i, j)) for j in range(s.c)] for i in range(s.r)])
-    def diagonal(s): return MxDiag(s)
+    def diagonal(s, k=0):
+        k = _i(k)
+        if k == 0:
+            return MxDiag(s)
+        n = min(s.r, s.c) - abs(k)      # k-th super- (k > 0) or sub-diagonal (k < 0), as a copy
+        return Mx.vec([s.g(i, i + k) if k > 0 else s.g(i - k, i) for i in range(max(n, 0))])
     def asDiagonal(s):
         v = s.flat()
         return Mx(len(v), len(v), [[v[i] if i == j else D(0) for j in range(len(v))] for i in range(len(v))])
